@@ -30,6 +30,10 @@ SPEC = {
 }
 
 
+class StopRun(Exception):
+    pass
+
+
 class Obj:
     def __init__(self, name):
         self.name = name
@@ -66,13 +70,24 @@ class Run:
                 # initialisation pass of the first simulate(): it must start like any other
                 run_ = self
 
-                def spawn(sched, obj, time, state):
-                    if run_.sched is None:
-                        run_.make_scheduler()
-                        for op in case['pre']:
-                            run_.do_reg(op, False)
-                self.spawner = ActionScheduler([(1000, 'only')], name='spawner')
-                self.spawner.register_object(self.spawner, spawn)
+                depth = int(case['spawned'])      # 1: created by a start-up action; 2+: by the start-up action of
+                #                                    a scheduler that was itself created that way, ...
+                self.spawners = []
+
+                def make_spawner(level):
+                    def spawn(sched, obj, time, state):
+                        if level < depth:
+                            if len(run_.spawners) == level:
+                                make_spawner(level + 1)
+                        elif run_.sched is None:
+                            run_.make_scheduler()
+                            for op in case['pre']:
+                                run_.do_reg(op, False)
+                    sp = ActionScheduler([(1000, 'only')], name=f'spawner{level}')
+                    sp.register_object(sp, spawn)
+                    run_.spawners.append(sp)
+                make_spawner(1)
+                sh.count(f'schedulers_created_at_depth_{depth}_of_the_initialisation_pass')
             elif not case.get('late'):
                 self.make_scheduler()
         self.cyclical = True if case['cyclical'] is None else case['cyclical']
@@ -177,6 +192,8 @@ class Run:
         self.t_next = now + dur
 
     def dispatch(self, ev):
+        if self.failed:
+            raise StopRun()       # the verdict is in; a run that no longer follows its timetable may never end
         if action_name(ev.action) == '_update_state' and instrument.action_owner(ev.action) is self.sched:
             self.shadow_at_dispatch = list(self.shadow)
             if self.calls:
@@ -233,6 +250,8 @@ class Run:
                         self.expect_round(self.env.now, 'start-up of a scheduler created between two runs')
                         for op in case['pre']:
                             self.do_reg(op, False)
+            except StopRun:
+                pass
             except Exception as e:
                 import traceback
                 self.fail('crash', f'{type(e).__name__}: {e} {traceback.format_exc()[-1000:]}')
@@ -271,7 +290,7 @@ def gen_case(rng, tie):
     n = rng.choice([1, 2, 2, 3, 3, 4, 5, 6])
     style = rng.choice(['int', 'dyadic', 'dyadic', 'decimal'])
     durs = {'int': [1, 2, 3, 5, 0], 'dyadic': [0.5, 1, 1.5, 0.25, 2, 0, 0.125], 'decimal': [0.1, 0.3, 0.7, 1.1, 2.2, 0]}[style]
-    states = ['on', 'off', 'idle', True, False, 0, 1]
+    states = ['on', 'off', 'idle', True, False, 0, 1, None, '', 2.5]
     while True:
         tt = [[rng.choice(durs), rng.choice(states)] for _ in range(n)]
         if sum(d for d, s in tt) > 0:
@@ -316,8 +335,8 @@ def gen_case(rng, tie):
             'script': script, 'tie': tie, 'tie_seed': rng.randrange(1 << 30)}
     if len(hs) == 2 and rng.random() < 0.5:
         case['late'] = True
-    elif rng.random() < 0.15:
-        case['spawned'] = True
+    elif rng.random() < 0.25:
+        case['spawned'] = rng.choice([1, 2, 3, 4])
     return case
 
 
